@@ -18,14 +18,17 @@ pub struct Prog {
     pub borrow_mask: u32,
     /// how the start value is passed: 0 = &str, 1 = String, 2 = Cow::Borrowed, 3 = Cow::Owned
     pub arg_form: u8,
-    /// 0: states are "0","1",..; 1: states are multi-byte strings of growing length
+    /// 0: states are "0","1",..; 1: multi-byte strings of growing length; 2: nested prefixes of one multi-byte
+    /// base string (state i+1 is a proper prefix of state i), so a rule can return a BORROWED SUB-SLICE of its input
     pub naming: u8,
 }
 
+const NEST_BASE: &str = "é1€3𝄞5ü7ß9abcxyz";
 fn state_name(naming: u8, i: u8) -> String {
     match naming {
         0 => format!("{i}"),
-        _ => format!("é{}€", "𝄞".repeat(i as usize)),
+        1 => format!("é{}€", "𝄞".repeat(i as usize)),
+        _ => NEST_BASE.chars().take(14usize.saturating_sub(i as usize)).collect(),
     }
 }
 fn err_of(e: u8) -> Error {
@@ -75,6 +78,11 @@ pub fn check_prog(p: &Prog, l: &mut Local) -> Check {
                 }
                 if t == i && (p.borrow_mask >> i) & 1 == 1 {
                     return Ok(Cow::Borrowed(s));
+                }
+                // a different result that is a prefix of the input may come back as a borrowed sub-slice
+                if p.naming == 2 && t > i && (p.borrow_mask >> (8 + t % 8)) & 1 == 1 {
+                    let n = state_name(2, t).len();
+                    return Ok(Cow::Borrowed(&s[..n]));
                 }
                 return Ok(Cow::Owned(state_name(p.naming, t)));
             }
@@ -141,9 +149,9 @@ pub fn check_prog(p: &Prog, l: &mut Local) -> Check {
 
 pub fn run(run: &Run) {
     run.set_rule(
-        "Generator ('programs'): (a) ALL functions f: S -> S + {Err1, Err2} on k states for k <= K (K=6 quick, 7 thorough) from every start state \
+        "Generator ('programs'): (a) ALL functions f: S -> S + {Err1, Err2} on k states for k <= K (K=6 quick, 7 thorough) from every start state, with opaque and with nested-prefix state strings \
          (total/failing, converging after 0..3 changes, cycles of every length, tails), with the start passed as &str; (b) proptest functions on up to \
-         12 states with three error kinds, diverging continuation (s -> s+'a'), Cow::Borrowed vs Cow::Owned for unchanged results, start passed as \
+         12 states with three error kinds, diverging continuation (s -> s+'a'), Cow::Borrowed vs Cow::Owned for unchanged results, borrowed SUB-SLICES of the input for changed results (nested-prefix state strings), start passed as \
          &str / String / Cow::Borrowed / Cow::Owned, ASCII and multi-byte state strings. Oracle: reference stabilize (apply up to 4 times, accept the \
          first x with f(x)=x, propagate f's error, else Invalid) + instrumented closure: arguments follow the orbit of the start, <= 4 applications, \
          result is a fixed point. Non-trivial: at least one application changed the string; distinct = distinct (table,start,naming).",
@@ -167,11 +175,13 @@ pub fn run(run: &Run) {
                     rem /= base;
                 }
                 for start in 0..k as u8 {
-                    let p = Prog { table: table.clone(), start, borrow_mask: (idx as u32).wrapping_mul(2654435761), arg_form: 0, naming: 0 };
-                    l.cases += 1;
-                    if let Err(v) = check_prog(&p, l) {
-                        run.violate(v);
-                        return;
+                    for naming in [0u8, 2u8] {
+                        let p = Prog { table: table.clone(), start, borrow_mask: (idx as u32).wrapping_mul(2654435761) | if naming == 2 { 0xff00 } else { 0 }, arg_form: 0, naming };
+                        l.cases += 1;
+                        if let Err(v) = check_prog(&p, l) {
+                            run.violate(v);
+                            return;
+                        }
                     }
                 }
                 idx += n as u64;
@@ -180,7 +190,7 @@ pub fn run(run: &Run) {
     }
     let mk = || {
         (1usize..=12).prop_flat_map(|k| {
-            (vec(0u8..(k as u8 + 3), k), 0u8..k as u8, any::<u32>(), 0u8..4, 0u8..2)
+            (vec(0u8..(k as u8 + 3), k), 0u8..k as u8, any::<u32>(), 0u8..4, 0u8..3)
                 .prop_map(|(table, start, borrow_mask, arg_form, naming)| Prog { table, start, borrow_mask, arg_form, naming })
         })
     };
